@@ -169,6 +169,8 @@ class _Transport:
         self.h = h
         self.side = side
         self.out = bytearray()      # written, not yet delivered to the peer
+        self.sent = 0               # wire offset: bytes ever accepted into `out`
+        self.gone = 0               # wire offset: bytes delivered to the peer or discarded
         self.closing = False        # loseConnection / abortConnection requested
         self.aborted = False
         self.lost = False
@@ -184,6 +186,7 @@ class _Transport:
             self.h.ctx.count("encrypted bytes written after transport.loseConnection (dropped by this transport)")
             return
         self.out += data
+        self.sent += len(data)
 
     def writeSequence(self, iov):
         self.write(b"".join(iov))
@@ -196,6 +199,7 @@ class _Transport:
         if not self.aborted and not self.lost:
             self.h.ctx.count("transport.abortConnection")
             if self.h.case["abort_drops"]:
+                self.gone += len(self.out)
                 del self.out[:]
         self.closing = True
         self.aborted = True
@@ -311,6 +315,11 @@ class _H:
                     h.ctx.count("application write inside handshakeCompleted()")
                     h.app_write(self.side, n)
                     S.hs_len = S.wrote - S.hs_pos
+                if h.case.get("hs_lose", [False, False])[self.side]:
+                    h.ctx.count("loseConnection inside handshakeCompleted()")
+                    if S.wrote > h.sides[1 - self.side].recv:
+                        h.ctx.count("loseConnection inside handshakeCompleted() with earlier writes undelivered")
+                    h.app_lose(self.side)
 
             def dataReceived(self, data):
                 h.on_data(self.side, data)
@@ -332,6 +341,10 @@ class _H:
             S.app_lost = 0
             S.lost_reason = None
             S.hs_done = False
+            S.reacted = False
+            S.ticked = 0         # stream position up to which writes have seen a clock iteration
+            S.close_mark = None  # peer-bound wire offset at this side's first loseConnection
+            S.before_peer_close = None   # see note_possible_close()
             S.hs_pos = None      # stream position of the write made inside handshakeCompleted()
             S.hs_len = 0
             S.producer = None
@@ -392,6 +405,16 @@ class _H:
                       f"side {side} received {n} bytes at stream offset {S.recv} (peer wrote {P.wrote}); "
                       f"first difference at +{p}")
         S.recv += n
+        if not S.reacted:
+            # the application reacts from inside its first dataReceived (echo / close)
+            S.reacted = True
+            k = self.case.get("dr_write", [0, 0])[side]
+            if k:
+                self.ctx.count("application write inside dataReceived()")
+                self.app_write(side, k)
+            if self.case.get("dr_lose", [False, False])[side]:
+                self.ctx.count("loseConnection inside dataReceived()")
+                self.app_lose(side)
 
     def app_write(self, side, n, seq=None):
         S = self.sides[side]
@@ -429,6 +452,9 @@ class _H:
         if not S.lose_called:
             S.lose_called = True
             S.owed = S.wrote
+            S.ticked = S.wrote           # loseConnection flushes aggregated small writes
+            # its close_notify (and anything else it still sends) lies at or after this wire offset
+            S.close_mark = S.transport.sent
             if self.in_flight():
                 self.saw_close_in_flight = True
                 self.ctx.count("loseConnection with bytes in flight")
@@ -498,6 +524,16 @@ class _H:
             return False
         chunk = bytes(q[:n])
         del q[:n]
+        X.transport.gone += n
+        if X.close_mark is not None and Y.before_peer_close is None and X.transport.gone > X.close_mark:
+            # This segment is the first that can tell Y that X is closing.
+            # Everything Y wrote up to now (and, for the aggregating transport,
+            # handed over by a clock iteration) was written before Y could know.
+            Y.before_peer_close = Y.wrote if not self.case["buf"][Y.side] else Y.ticked
+            if Y.before_peer_close > X.recv:
+                self.ctx.count("first segment that may carry the peer's close arrives while own earlier writes are undelivered")
+                if not Y.hs_done:
+                    self.ctx.count("... and the same segment completes the handshake (coalesced)")
         self.ctx.count("delivery (partial)" if q else "delivery (all pending)")
         self.call(Y.tls.dataReceived, chunk)
         return True
@@ -522,6 +558,7 @@ class _H:
         # whatever the peer still had in flight towards this side is gone
         if P.transport.out:
             self.ctx.count("bytes in flight towards a closed transport discarded")
+            P.transport.gone += len(P.transport.out)
             del P.transport.out[:]
         if T.producer is not None:
             p, T.producer = T.producer, None
@@ -543,7 +580,11 @@ class _H:
             self.call(T.producer.resumeProducing)
 
     def tick(self):
-        return self.call(self.clock.iterate)
+        marks = [S.wrote for S in self.sides]
+        r = self.call(self.clock.iterate)
+        for S, m in zip(self.sides, marks):
+            S.ticked = max(S.ticked, m)
+        return r
 
     def drain(self):
         for _ in range(600):
@@ -654,6 +695,24 @@ class _H:
                 ctx.count("receiver that never closed got everything owed")
                 if owed:
                     ctx.count("receiver that never closed got everything owed (non-empty)")
+            elif not S.transport.aborted and not P.transport.aborted:
+                # S itself asked to close (orderly, no abort).  It keeps
+                # reading until the peer's close arrives, so it is still owed
+                # what the peer wrote before the peer could know about the close
+                # (and before the peer's own loseConnection).
+                owed = P.wrote if not case["buf"][P.side] else P.ticked
+                if P.before_peer_close is not None:
+                    owed = min(owed, P.before_peer_close)
+                if P.lose_called:
+                    owed = min(owed, P.owed)
+                if S.recv < owed:
+                    self.fail("closing-side-lost-bytes-written-before-its-close-was-known",
+                              f"side {S.side} called loseConnection (no abort) and received {S.recv} bytes; its peer had written "
+                              f"{owed} bytes before the first segment that could carry side {S.side}'s close reached it "
+                              f"(peer wrote {P.wrote} in all, tls12={case['tls12']}, buf={case['buf']})")
+                ctx.count("closing side got everything written before its close could be known")
+                if owed:
+                    ctx.count("closing side got everything written before its close could be known (non-empty)")
         if self.saw_early_write and self.saw_close_in_flight:
             ctx.nontrivial(case)
             ctx.count("nontrivial")
@@ -668,7 +727,8 @@ def run_case(ctx, case):
 
 def _base(**kw):
     d = dict(tls12=False, buf=[True, True], late="keep", abort_drops=False, first=0, closer=0, seg=-1,
-             cm_write=[0, 0], hs_write=[0, 0], ops=[])
+             cm_write=[0, 0], hs_write=[0, 0], hs_lose=[False, False], dr_write=[0, 0], dr_lose=[False, False],
+             ops=[])
     d.update(kw)
     return d
 
@@ -679,12 +739,23 @@ ALPHABET = [
 ]
 
 
+# what the applications do from inside their callbacks (re-entrant use of the transport)
+CALLBACKS = [
+    dict(),
+    dict(hs_lose=[True, False]), dict(hs_lose=[False, True]),
+    dict(hs_write=[6, 0]), dict(hs_write=[0, 6]),
+    dict(dr_lose=[True, False]), dict(dr_lose=[False, True]),
+    dict(dr_write=[7, 0]), dict(dr_write=[0, 7]),
+    dict(cm_write=[5, 5]),
+]
+
+
 def _enum_shard(ctx, arg):
-    tls12, buf, length = arg
+    tls12, buf, cb, length = arg
 
     def cases():
         for t in itertools.product(range(len(ALPHABET)), repeat=length):
-            yield _base(tls12=tls12, buf=[buf, buf], ops=[ALPHABET[i] for i in t])
+            yield _base(tls12=tls12, buf=[buf, buf], ops=[ALPHABET[i] for i in t], **CALLBACKS[cb])
     enumerate_run(ctx, cases(), run_case)
 
 
@@ -732,8 +803,10 @@ _cases = st.builds(
     seg=st.one_of(st.just(-1), st.just(-1), st.just(-1), st.sampled_from([1460, 16384, 16406]),
                   st.integers(100, 3000), st.sampled_from([1, 5, 6, 37])),
     cm_write=st.lists(_small, min_size=2, max_size=2),
-    hs_write=st.lists(st.one_of(st.just(0), st.just(0), st.just(0), st.just(0), st.just(0), _small),
-                      min_size=2, max_size=2),
+    hs_write=st.lists(st.one_of(st.just(0), st.just(0), st.just(0), _small), min_size=2, max_size=2),
+    hs_lose=st.lists(st.sampled_from([False, False, False, False, True]), min_size=2, max_size=2),
+    dr_write=st.lists(st.one_of(st.just(0), st.just(0), st.just(0), _small), min_size=2, max_size=2),
+    dr_lose=st.lists(st.sampled_from([False, False, False, False, False, True]), min_size=2, max_size=2),
     ops=_ops,
 )
 
@@ -744,13 +817,17 @@ def _hyp_shard(ctx, i):
 
 def run(ctx):
     length = ctx.pick(3, 4)
-    shards = [(t, b, n) for n in range(1, length + 1) for t in (False, True) for b in (True, False)
+    # no callback action: up to `length`; each callback action: up to length - 1
+    shards = [(t, b, 0, n) for n in range(1, length + 1) for t in (False, True) for b in (True, False)
               if ctx.thorough or n < length or t != b]
+    shards += [(t, b, cb, n) for n in range(0, length) for cb in range(1, len(CALLBACKS))
+               for t in (False, True) for b in (True, False)]
     if ctx.thorough:
         ctx.shards(_enum_shard, shards)
     else:
         ctx.shards(_enum_shard, shards, procs=1)
-    ctx.extra["enumerated_scope"] = f"all histories of length 1..{length} over {len(ALPHABET)} operations x TLS1.3/1.2 x buffering/plain"
+    ctx.extra["enumerated_scope"] = (f"all histories of length 1..{length} over {len(ALPHABET)} operations x TLS1.3/1.2 x buffering/plain; "
+                                     f"length 0..{length - 1} for each of {len(CALLBACKS) - 1} application callback actions")
     ctx.exhaustive = False
     if ctx.has_violation():
         return
